@@ -89,6 +89,10 @@ def obligations(tier):
                         '(k, M, thousand, lakh, crore, mil, millions ...) behind a numeral of every layout, with 0..2 blanks, the literal\'s value is the bare numeral\'s value times the token\'s power, at parser level and through recognize_number',
                   bounds='15..23 tokens x 8 numerals x 3 spacings per culture; only texts the culture extracts as one literal are judged; German / Dutch digit+word compounds are finding F58',
                   encodes=['recognizers_number.number.parsers:BaseNumberParser._digit_number_parse']))
+    obs.append(Ob('O3.7-cjk-digit-layouts', 'fn', 'harness.C03:cjk_digit_layouts', slices=[{'culture': 'zh-cn'}, {'culture': 'ja-jp'}], timeout=t,
+                  descr='digit literals of zh-cn / ja-jp through the public API (small-scope enumeration over layouts, not a solver verdict): comma-grouped integers with 1..5 groups, optional sign and decimals, bare and inside a carrier: one number entity with that value '
+                        '(the language layer O3.1 covers the eight alphabetic cultures; O3.2 decides the digit kernel for zh / ja)',
+                  bounds='240 literals per culture', encodes=['recognizers_number.number.japanese.extractors:JapaneseIntegerExtractor.__init__', 'recognizers_number.number.chinese.extractors:ChineseIntegerExtractor.__init__']))
     obs.append(Ob('O3.6-known-compound', 'fn', 'harness.C03:multiplier_cut', slices=[{'culture': c, 'f58': 'only'} for c in ('de-de', 'nl-nl')], timeout=t, finding='F58',
                   descr='region of finding F58 (German / Dutch digit + multiplier word written together)'))
     obs.append(Ob('O3.6-witness-plural', 'fn', 'harness.witness:api_witness', slices=[{'w': 'F57'}], timeout=t, finding='F57', descr='API witness of the repaired F57 (1.234 millions): a reappearance is a violation'))
